@@ -845,6 +845,10 @@ func (self *PathNode) handleChild(in *[]PathNode, lp *int, cp *int, p *thrift.Bi
 		p.Buf = p.Buf[ss:]
 		p.Read = 0
 		if err := v.scanChildren(p, recurse, opts); err != nil {
+			// NOTICE: don't leave the half-built child in the slot. With NotScanParentNode its pointer is taken before
+			// anything is read: for an input cut right there it is the address behind the buffer, which the garbage
+			// collector takes for a pointer into the neighbouring object
+			v.Node = Node{}
 			return nil, err
 		}
 		p.Buf = buf
